@@ -368,32 +368,13 @@ theorem C17_gate_lease_unset_residual :
 for every pair of channel types exactly the model's `determineCommitmentType` (which the theorems above use). -/
 theorem C17_det_table (x y : Nat) :
     evalDetCases x y Gen.C17.detCases = some (determineCommitmentType x y) := by
+  have e1 : Gen.C17.chanTypeScriptEnforced = 1 := rfl
+  have e2 : Gen.C17.chanTypeSimpleTaproot = 2 := rfl
   unfold determineCommitmentType
+  rw [e1, e2]
   simp only [Gen.C17.detCases, evalDetCases, evalCond]
-  by_cases h1 : x = Gen.C17.chanTypeScriptEnforced ∨ y = Gen.C17.chanTypeScriptEnforced
-  · have h1' : (x == 1 || y == 1) = true := by
-      cases h1 with
-      | inl h => simp [show x = 1 from h]
-      | inr h => simp [show y = 1 from h]
-    rw [if_pos h1]
-    simp [h1', rpcCommitScriptEnforcedLease]
-  · have h1' : (x == 1 || y == 1) = false := by
-      have hx : ¬ x = 1 := fun h => h1 (Or.inl h)
-      have hy : ¬ y = 1 := fun h => h1 (Or.inr h)
-      simp [hx, hy]
-    rw [if_neg h1]
-    by_cases h2 : x = Gen.C17.chanTypeSimpleTaproot ∧ y = Gen.C17.chanTypeSimpleTaproot
-    · have h2' : (x == 2 && y == 2) = true := by
-        simp [show x = 2 from h2.1, show y = 2 from h2.2]
-      rw [if_pos h2]
-      simp [h1', h2', rpcCommitSimpleTaproot]
-    · have h2' : (x == 2 && y == 2) = false := by
-        by_cases hx : x = 2
-        · have hy : ¬ y = 2 := fun h => h2 ⟨hx, h⟩
-          simp [hy]
-        · simp [hx]
-      rw [if_neg h2]
-      simp [h1', h2', rpcCommitUnknown]
+  by_cases hx1 : x = 1 <;> by_cases hy1 : y = 1 <;> by_cases hx2 : x = 2 <;> by_cases hy2 : y = 2 <;>
+    simp [hx1, hy1, hx2, hy2, rpcCommitScriptEnforcedLease, rpcCommitSimpleTaproot, rpcCommitUnknown]
 
 /-- **(R)** field mapping of the `lnrpc.OpenChannelRequest` literal in `BatchChannelSetup` and of the
 `lnrpc.ChanPointShim` / `lnrpc.ChannelPoint` literals in `deriveFundingShim`, regenerated from the source: the fields
